@@ -47,7 +47,7 @@ func run(r *core.Run) {
 	}
 	// plain objects first, then family by family; inside a family the larger searches first (load balance)
 	family := func(sc *scenario) int {
-		fams := []string{"lattice/plain/", "lattice/", "proto/", "pair/", "order/", "builtin/", "host/", "chain/"}
+		fams := []string{"lattice/plain/", "order/", "pair/", "proto/", "builtin/", "lattice/", "host/", "chain/"}
 		for i, f := range fams {
 			if strings.HasPrefix(sc.Name, f) {
 				return i
